@@ -130,12 +130,16 @@ func (h *hist) lockView() map[string]*lockInfo {
 		} else if pt.RolledBack(l.StartTS) {
 			li.class = "rolledback"
 		} else if pt.Lock != nil && pt.Lock.StartTS == l.StartTS {
-			pl := byKey[string(l.Primary)]
-			expired := oracle.ExtractPhysical(l.StartTS)+int64(pl.TTL) < nowPhys
+			// mocktikv reports neither TTL nor min_commit_ts of a lock: take them from the driver's record
+			ttl, large, async := h.d.Lookup(l.StartTS)
+			if ttl == 0 {
+				ttl = byKey[string(l.Primary)].TTL
+			}
+			expired := oracle.ExtractPhysical(l.StartTS)+int64(ttl) < nowPhys
 			switch {
-			case pl.UseAsync || l.UseAsync:
+			case async || l.UseAsync:
 				li.class = "async"
-			case pl.MinCommitTS > 0 && pl.Type != kvrpcpb.Op_PessimisticLock:
+			case large && pt.Lock.Type != kvrpcpb.Op_PessimisticLock:
 				li.class = "large-alive"
 				if expired {
 					li.class = "large-expired"
@@ -244,6 +248,9 @@ func (h *hist) planHook(o *obs) (at int64, fn func()) {
 	key := []byte(h.keys[h.rng.Intn(len(h.keys))])
 	pick := h.rng.Intn(3)
 	ms := int64(30 + h.rng.Intn(3000))
+	if h.rng.Intn(5) == 0 {
+		ms = ttlAlive + 1000 // "alive" locks expire during the read
+	}
 	x := h.rng.Intn(100)
 	mock := h.backend == uni.Mock
 	switch {
@@ -327,6 +334,21 @@ func (h *hist) doRead(si, oi, rep int, st *sessState, path string, keys []string
 		})
 	}
 	o.logFrom = h.u.Log.Len()
+	t0 := time.Now()
+	defer func() {
+		if d := time.Since(t0); d > 300*time.Millisecond && debugOn() {
+			fmt.Println("SLOW", d, describe(o))
+			cs := h.u.Log.CallsFrom(o.logFrom)
+			for i, c := range cs {
+				if i < 14 {
+					fmt.Printf("   #%d c%d %s region=%d ver=%d :: %.300v => %.300v\n", c.Seq, c.Client, c.Cmd, c.RegionID, c.RegionVer, c.Req, c.Resp)
+				}
+			}
+			for _, l := range h.d.Descr() {
+				fmt.Println("   H", l)
+			}
+		}
+	}()
 	done := make(chan struct{})
 	go func() {
 		defer close(done)
@@ -359,6 +381,9 @@ func (h *hist) doRead(si, oi, rep int, st *sessState, path string, keys []string
 		for _, k := range keys {
 			st.read[k] = true
 		}
+	}
+	if o.err != "" && o.demanded {
+		debugDump(h, o)
 	}
 	st.log = append(st.log, describe(o))
 	h.obs = append(h.obs, o)
